@@ -11,6 +11,7 @@ pub mod c06;
 pub mod c07;
 pub mod c09;
 pub mod common;
+pub mod real;
 
 pub enum Budget {
     /// exactly this many runs (indices 0..n)
